@@ -117,9 +117,4 @@ def brokenRules (p : Proj) : List String :=
   (Rule.all.filter fun r => p.services.any fun e => (ruleCheck p e.2 r).isSome).map Rule.name ++
   (if secretsB p then [] else ["secretSource"]) ++ (if acyclicB p then [] else ["cycle"])
 
-/-- some service depends on itself *and* optionally on something that is not an enabled service:
-the input shape on which `newGraph`'s `delete(s.DependsOn, name)` makes the result order-dependent -/
-def ambiguousSelfDep (p : Proj) : Bool :=
-  p.services.any fun e => e.2.dependsOn.any (fun d => d.1 == e.1) && deletesSelf p.enabled e.2
-
 end CV.Consistency
